@@ -31,7 +31,11 @@ if [ $TESTS = 1 ]; then
 fi
 (cd $LAB/sim && CARGO_NET_OFFLINE=true cargo build --release --offline >$LAB/out/build.log 2>&1) || { echo "BUILD-FAILED"; tail -20 $LAB/out/build.log; exit 2; }
 # the unoptimised build that repeats part of the totality batches (only if this version of the simulator has one)
-if grep -q "profile.dev" $LAB/sim/Cargo.toml; then
+NEEDDEV=0
+for P in "$@"; do case "$P" in C05|C06) NEEDDEV=1 ;; esac; done
+if [ $NEEDDEV = 0 ]; then
+    :
+elif grep -q "profile.dev" $LAB/sim/Cargo.toml; then
     (cd $LAB/sim && CARGO_NET_OFFLINE=true cargo build --offline >$LAB/out/build-dev.log 2>&1) || { echo "BUILD-FAILED (dev)"; tail -20 $LAB/out/build-dev.log; exit 2; }
 else
     rm -rf $LAB/sim/target/debug
